@@ -38,6 +38,7 @@ type Case struct {
 	Failed  bool    `json:"failed"`
 	Tree    []Obj   `json:"tree"`
 	NoModel bool    `json:"nomodel"`
+	Split   bool    `json:"split"` // one archive per tar entry instead of one archive per run of entries
 }
 
 // Obj is one file-system object relative to the sandbox root.
@@ -234,6 +235,16 @@ func TestDrive(t *testing.T) {
 			run = nil
 		}
 		for _, e := range c.Hist {
+			if e.K == "presym" {
+				// the working directory already holds this link before anything is pushed
+				p := root + "/w/" + strings.Join(e.Name, "/")
+				os.MkdirAll(filepath.Dir(p), 0o755)
+				if err := os.Symlink(pathOf(root, e.Tg, e.TAbs), p); err != nil {
+					t.Fatal(err)
+				}
+				before = snapshot(root)
+				continue
+			}
 			if e.K == "restore" {
 				// a manifest whose layer has the digest of the already stored blob "x" and another title
 				flush()
@@ -263,6 +274,9 @@ func TestDrive(t *testing.T) {
 					ocispec.AnnotationTitle: pathOf(root, e.Name, e.NAbs)}}, []byte("new"))
 			} else {
 				run = append(run, e)
+				if c.Split {
+					flush()
+				}
 			}
 		}
 		flush()
